@@ -1,5 +1,5 @@
 """Seeded mutants of kmip/services/server/session.py for the C12 / C17 checks.
-Each mutant is applied to a temporary COPY of /repo/kmip put first on PYTHONPATH (/repo is never edited);
+Each mutant is applied to a temporary COPY of /repo/kmip selected through VERIF_REPO / PYTHONPATH (/repo is never edited);
 usage: /venv/bin/python notes/mutants_session.py [mutant-name ...]   (run from /verif; replays/ gets extra files)
 """
 import os, shutil, subprocess, sys, tempfile
@@ -14,6 +14,8 @@ MUT = {
  "c12-loop-breaks-on-error": ("                except Exception as e:\n                    self._logger.info(\"Failure handling message loop\")\n", "                except Exception as e:\n                    break\n                    self._logger.info(\"Failure handling message loop\")\n"),
  "c12-invalid-message-reraised": ("            self._logger.warning(\"Failure parsing request message.\")\n", "            self._logger.warning(\"Failure parsing request message.\")\n            raise\n"),
  "c12-too-large-not-replaced": ("        if len(response_data) > max_size:\n", "        if len(response_data) > max_size + 1:\n"),
+ "c12-max-zero-ignored-again": ("                    if max_response_size is not None:\n", "                    if max_response_size:\n"),
+ "c12-write-guard-removed": ("        try:\n            response.write(response_data, kmip_version=kmip_version)\n        except Exception as e:\n", "        response.write(response_data, kmip_version=kmip_version)\n        try:\n            pass\n        except Exception as e:\n"),
  "c12-invalid-message-wrong-reason": ("                enums.ResultReason.INVALID_MESSAGE,\n                \"Error parsing request message.", "                enums.ResultReason.GENERAL_FAILURE,\n                \"Error parsing request message."),
 }
 which = sys.argv[1:]
@@ -26,7 +28,7 @@ for name, (old, new) in MUT.items():
     assert s.count(old) == 1, (name, s.count(old))
     open(p, 'w').write(s.replace(old, new))
     pid = 'C17' if name.startswith('c17') else 'C12'
-    env = dict(os.environ, PYTHONPATH=T)
+    env = dict(os.environ, PYTHONPATH=T, VERIF_REPO=T)   # vcheck puts VERIF_REPO first on sys.path
     r = subprocess.run(['./check', pid, '--tier', 'quick', '--no-build'], cwd='/verif', env=env, capture_output=True, text=True)
     lines = [l for l in r.stdout.splitlines() if l.startswith('VIOLATION') or l.startswith('  detail') or l.startswith('HARNESS')]
     print('==', name, 'exit', r.returncode)
